@@ -13,7 +13,8 @@ EVIDENCE = dict(
          "partial and repeated yields, generators that edit the working array's own notes or put notes into it without yielding (also yielding nothing at all), sixteen kinds of exceptions, sequences of 1-4 successive edits, and a first edit on a newly constructed pattern nothing has looked at yet; the supplied callable logs the contents it "
          "observes at each invocation; Trace_RVBulk validates one event per model action. non-trivial = the edit "
          "supplies a note different from the cell's previous content or fails."
-         " Generator callables also return a list, an iterator, a tuple or a map object.",
+         " Generator callables also return a list, an iterator, a tuple or a map object."
+         " A quarter of the histories edit a copy.copy of the pattern while the original stands by (op bystander: contents and ownership of the original unchanged).",
     explanation="fault_sequences: a failure at each cell/yield index; histories: successive edits on the same pattern")
 
 
